@@ -92,6 +92,11 @@ func (e *Env) resolveType(name string) (types.Type, string) {
 		T := types.Universe.Lookup(name).Type()
 		return T, "Iface"
 	}
+	if strings.HasPrefix(name, "[]") {
+		T, _ := e.resolveType(name[2:])
+		st := types.NewSlice(T)
+		return st, "Slice"
+	}
 	ptr := 0
 	for strings.HasPrefix(name, "*") {
 		name = name[1:]
@@ -103,6 +108,14 @@ func (e *Env) resolveType(name string) (types.Type, string) {
 		for _, imp := range e.pkg.Imports() {
 			if imp.Name() == pk {
 				if o := imp.Scope().Lookup(nm); o != nil {
+					T = o.Type()
+				}
+			}
+		}
+		if T == nil {
+			// not imported by the contract's package: look through everything the loaded packages import
+			if p := e.g.ld.pkgByName(pk); p != nil {
+				if o := p.Scope().Lookup(nm); o != nil {
 					T = o.Type()
 				}
 			}
@@ -170,6 +183,12 @@ func (e *Env) ident(name string) Val {
 				c.cur = saved
 				return Val{t: t, ty: T}
 			}
+		}
+	}
+	// plain locals by their source name (last value bound so far)
+	for c := e.fc; c != nil; c = c.parent {
+		if v, ok := c.debugNames[name]; ok && v.tuple == nil {
+			return v
 		}
 	}
 	if e.pkg != nil {
